@@ -24,7 +24,7 @@ EXPORTED = ["Alpha", "Order", "HTTPServer", "UserID", "X", "Item", "Gamma", "Nod
 UNEXPORTED = ["beta", "userRepo", "x1", "inner", "cfg", "node", "kv", "impl", "tmp", "aux", "ctl", "rec"]
 UNDERSCORED = ["_Hidden", "_x", "_Pad", "_internal", "_T"]
 FILES = ["a.go", "b.go", "model.go", "types_x.go", "zz.go", "m1.go", "api.go", "x.y.go", "Src.go", "gen.go",
-         "c_d.go", "k9.go"]
+         "c_d.go", "k9.go", "data.go", "ab.go", "log.go", "go.go"]   # incl. names that are suffixes of others / end in g, o
 
 
 class TS:
@@ -155,7 +155,9 @@ def render_file(pkgname, f):
                 body.append("type (\n" + inner + "\n)\n")
         elif d[0] == "const":
             ty, names, strconst = d[1], d[2], d[3]
-            if strconst:
+            if strconst == "float":
+                lines = "\n".join('\t%s %s = %d.5' % (n, ty, i) for i, n in enumerate(names))
+            elif strconst:
                 lines = "\n".join('\t%s %s = "%s"' % (n, ty, n.lower()) for n in names)
             else:
                 lines = "\n".join(("\t%s %s = iota" % (n, ty)) if i == 0 else "\t" + n for i, n in enumerate(names))
@@ -190,7 +192,11 @@ def gen_pkg(rng, with_rest=False, want_local=None, want_collision=False):
     """a random skeleton mixing eligible and ineligible declarations of every kind"""
     p = Pkg()
     nfiles = rng.choice([1, 2, 2, 3, 3, 4])
-    names = sorted(rng.sample(FILES, nfiles))         # go list order = sorted by file name
+    names = rng.sample(FILES, nfiles)
+    if nfiles >= 2 and rng.random() < 0.3:            # a file name that is a suffix of another one
+        names[0], names[1] = rng.choice([("a.go", "data.go"), ("b.go", "ab.go"), ("go.go", "log.go")])
+        names = list(dict.fromkeys(names))
+    names = sorted(names)                             # go list order = sorted by file name
     p.files = [File(n) for n in names]
     pool_e, pool_u, pool__ = list(EXPORTED), list(UNEXPORTED), list(UNDERSCORED)
     rng.shuffle(pool_e), rng.shuffle(pool_u), rng.shuffle(pool__)
@@ -205,7 +211,7 @@ def gen_pkg(rng, with_rest=False, want_local=None, want_collision=False):
     structs, ints, ifaces = [], [], []
     kinds = ["struct", "struct", "struct", "ustruct", "_struct", "generic", "alias", "nonint", "nonint_consts",
              "enum", "enum", "enum_other_file", "int_noconst", "int_of_named", "iface", "iface_embed",
-             "named_struct", "alias_int"]
+             "named_struct", "alias_int", "alias_structlit"]
     if with_rest:
         kinds += ["rest", "rest", "rest", "urest", "_rest", "iface_universe"]
     if want_local is None:
@@ -246,6 +252,9 @@ def gen_pkg(rng, with_rest=False, want_local=None, want_collision=False):
                     continue
                 n = fresh()
                 specs = [TS(n, "alias", "%s = %s" % (n, rng.choice(structs).name), alias=True)]
+            elif k == "alias_structlit":
+                n = fresh()
+                specs = [TS(n, "alias_structlit", "%s = %s" % (n, rng.choice(STRUCT_BODIES)), alias=True, rhs="struct")]
             elif k == "alias_int":
                 n = fresh()
                 tgt = rng.choice(ints).name if ints and rng.random() < 0.5 else rng.choice(INT_KINDS)
@@ -254,10 +263,11 @@ def gen_pkg(rng, with_rest=False, want_local=None, want_collision=False):
                 specs = [mk_nonint(rng, fresh())]
             elif k == "nonint_consts":
                 n = fresh()
-                specs = [TS(n, "nonint_consts", "%s string" % n)]
+                under = rng.choice(["string", "string", "float64"])
+                specs = [TS(n, "nonint_consts", "%s %s" % (n, under))]
                 pre = cprefix(n, "C")
                 cn = ["%s%d" % (pre, i) for i in range(rng.randint(1, 3))]
-                pending_consts.append((f, n, cn, True, rng.random() < 0.3))
+                pending_consts.append((f, n, cn, "float" if under == "float64" else True, rng.random() < 0.3))
             elif k in ("enum", "enum_other_file"):
                 t = mk_int(rng, fresh()); ints.append(t); specs = [t]
                 pre = cprefix(t.name, "V")
